@@ -20,6 +20,7 @@ MUTATORS = {
 }
 
 EXC = "@exc"
+MONOTONE_TRUE = ("._cancel_called", ".cancel_called")
 
 
 # ----------------------------------------------------------------------------- aliases
@@ -424,7 +425,10 @@ class Explorer:
             if e.all_self and has_self:
                 continue
             if e.suspends and attrs:
-                continue
+                # a flag that is only ever set (writer table R04-f: `_cancel_called` is False in __init__ and
+                # True in cancel(), nowhere else) stays set across a suspension
+                if not (f[1] is True and k.endswith(MONOTONE_TRUE) and len(attrs) == 1):
+                    continue
             out.append(f)
         return frozenset(out)
 
